@@ -544,10 +544,13 @@ def oracle(rec):
             if len(dl) > 1 or (pp[5] == "1" and len(mine) != 1):
                 out.append(("c05-deliver", f"well-formed data message sys={system} while SELECTED delivered {len(mine)} times ({dl})"))
             elif pp[5] == "1":
-                want = "wait" if system in rec["open_before"] else "app"
+                # only a reply (even function code, F0 included) can belong to an open transaction of this endpoint; a primary whose
+                # system bytes collide with one is a new transaction of the peer and must reach the application
+                is_reply = int(pp[2]) % 2 == 0
+                want = "wait" if (is_reply and system in rec["open_before"]) else "app"
                 if mine[0][0] != want:
-                    out.append(("c05-deliver", f"data message sys={system} went to {mine[0][0]}, a requester "
-                                f"{'was' if want == 'wait' else 'was not'} waiting on these system bytes"))
+                    out.append(("c05-deliver", f"{'reply' if is_reply else 'primary'} S{pp[1]}F{pp[2]} sys={system} went to {mine[0][0]}, expected {want} "
+                                f"(a requester {'was' if system in rec['open_before'] else 'was not'} waiting on these system bytes)"))
     return out
 
 
@@ -717,7 +720,8 @@ def main():
         histories += [(False, ["con", "rx.selrsp.U.0"]), (True, ["con", "rx.selrsp.Ms.1"]), (False, ["con", "rx.selreq.U.0", "rx.desrsp.U.0"]),
                       (False, ["con", "rx.selreq.U.0", "rx.sepreq.U.0"]), (False, ["con", "dat.uw.U"]), (False, ["con", "dat.mw.U"]),
                       (False, ["con", "rx.selreq.U.0", "dat.uw.U"]), (False, ["con", "rx.selreq.U.0", "rx.selreq.U.0"]),
-                      (True, ["con", "rx.selreq.U.0", "rx.selrsp.Ms.0", "rx.desreq.U.0", "rx.selrsp.Ms.0"])]
+                      (True, ["con", "rx.selreq.U.0", "rx.selrsp.Ms.0", "rx.desreq.U.0", "rx.selrsp.Ms.0"]),
+                      (True, ["con", "rx.selreq.U.0", "dat.cw.Ma", "dat.cn.Ma"]), (False, ["con", "rx.selreq.U.0", "api.lnk", "dat.mw.Ma", "dat.mn.Ma"])]
 
     t0 = time.time()
     results = run_all(histories, workers)
